@@ -864,6 +864,34 @@ func calleeBase(st *State, rng AV) AV {
 	return fun
 }
 
+// anyLabel reports whether some outcome carries a label with the prefix.
+func anyLabel(outs []Outcome, prefix string) bool {
+	for _, o := range outs {
+		for _, l := range o.St.Labels {
+			if strings.HasPrefix(l, prefix) {
+				return true
+			}
+		}
+	}
+	return false
+}
+
+// loweredLoopOf: v is a for statement allocated on this path whose init
+// statement takes the range statement's own operand.
+func (r *rwRT) loweredLoopOf(st *State, v AV, frRef Ref) bool {
+	lo := st.Obj(unwrap(v))
+	fo := st.Obj(frRef)
+	if lo == nil || fo == nil || typeName(lo.T) != "ForStmt" {
+		return false
+	}
+	io := st.Obj(unwrap(lo.Fields["Init"]))
+	if io == nil {
+		return false
+	}
+	rhs, _ := io.Fields["Rhs"].(SliceV)
+	return len(rhs.Elems) == 1 && sameAV(unwrap(rhs.Elems[0]), unwrap(fo.Fields["X"]))
+}
+
 // ------------------------------------------------------------------ RW.TMPL.CONSUMER (dispatch)
 //
 // ruleConsumerDispatch drives the cursor callback rewriteForRanges on a range
@@ -897,6 +925,27 @@ func (r *rwRT) ruleConsumerDispatch() {
 				})
 				outs := in.Run(st, fn, []AV{Sym{Name: "r", NN: true}, Sym{Name: "cursor", NN: true}, Sym{Name: "pkg", NN: true}}, nil)
 				r.account(in)
+				// the lowering may ask the question itself (nil for "not an iterator"): when no path of the
+				// callback asks, the callback and the lowering are evaluated as one
+				inlined := false
+				if !anyLabel(outs, "isIterator(") {
+					st = newState()
+					_, key = r.identNode(st, "v")
+					bodyRef, _ = r.heapNode(st, "BlockStmt", map[string]AV{"List": list})
+					frRef, fr = r.heapNode(st, "RangeStmt", map[string]AV{"Key": key, "Value": Nil{}, "Tok": r.tokConst(tok), "X": exprLeaf(r, "fr.X"), "Body": bodyRef})
+					before = st.Render(frRef)
+					in2 := r.interp(rwConfig{root: fn, boundaries: map[string]bool{"rewriteForRange": false}})
+					frNode := fr
+					in2.OnCall = wrapOnCall(in2.OnCall, func(cc *CallCtx) []Answer {
+						if cc.Fn != nil && cc.Fn.Name() == "Node" && cc.Fn.Signature.Recv() != nil && strings.Contains(cc.Fn.Signature.Recv().Type().String(), "astutil.Cursor") {
+							return []Answer{{Ret: []AV{frNode}, NoEvent: true}}
+						}
+						return nil
+					})
+					outs = in2.Run(st, fn, []AV{Sym{Name: "r", NN: true}, Sym{Name: "cursor", NN: true}, Sym{Name: "pkg", NN: true}}, nil)
+					r.account(in2)
+					inlined = true
+				}
 				construct := fmt.Sprintf("dispatch: for v %s range x {%s}, x iterator = %v", map[string]string{"DEFINE": ":=", "ASSIGN": "="}[tok], map[bool]string{true: "", false: " body "}[emptyBody], isIter)
 				found := false
 				var err error
@@ -929,6 +978,18 @@ func (r *rwRT) ruleConsumerDispatch() {
 						if e.Kind == "call" && e.Fn != nil && e.Fn.Name() == "rewriteForRange" && inRw(e.Fn) {
 							lowered = &o.St.Events[i]
 						}
+					}
+					if inlined {
+						switch {
+						case err != nil:
+						case epochRe.ReplaceAllString(after, "") != epochRe.ReplaceAllString(before, ""):
+							err = fmt.Errorf("the range statement is modified by its lowering (its key, token, operand or body are no longer the source's): %s", after)
+						case isIter && (len(edits) != 1 || edits[0].Fn.Name() != "Replace" || !r.loweredLoopOf(o.St, edits[0].Args[1], frRef)):
+							err = fmt.Errorf("the range statement is not replaced by exactly one loop built from its operand")
+						case !isIter && len(edits) != 0:
+							err = fmt.Errorf("a range loop whose operand is not an iterator is rewritten by the consumer pass")
+						}
+						continue
 					}
 					switch {
 					case err != nil:
